@@ -49,6 +49,7 @@ class Contract:
     instances: list = field(default_factory=list)  # function-level instances of requires_forall
     pure_view: bool = False  # callee usable inside spec clauses (deterministic, no effects)
     trusted: bool = False  # contract assumed, not verified (listed in assumptions)
+    entry_closure: bool = False  # assume the entry heap is closed: every reference stored in an object allocated at entry was allocated at entry
     self_cls: str | None = None
     # ghost lemma applications at function end: statements evaluated before checking ensures
     ghost_end: list = field(default_factory=list)
